@@ -512,6 +512,10 @@ def build_families(ctx):
     for j, (kind, via) in enumerate(plan):
         if ctx.mine(j + ctx.seed):
             fams.append(ctx.guard(ko.family_generated, kind, rng, via))
+    if not ctx.quick:  # more random keys per shard
+        for n in range(10):
+            kind = rng.choice(["ecdsa256", "ecdsa384", "ecdsa521", "rsa1024", "rsa1536", "ed25519", "rsa2048"])
+            fams.append(ctx.guard(ko.family_generated, kind, rng, rng.choice(["paramiko", "file"])))
     # special keys
     specials = [("lz256", lambda: leading_zero_ec(rng, 256)), ("lz384", lambda: leading_zero_ec(rng, 384)),
                 ("lz521", lambda: leading_zero_ec(rng, 521)),
